@@ -361,7 +361,7 @@ func allocsOf(fn *ssa.Function, pkgSuffix, typeName string) []*ssa.Alloc {
 	var out []*ssa.Alloc
 	instrs(fn, func(in ssa.Instruction) {
 		if a, ok := in.(*ssa.Alloc); ok && typeIs(a.Type(), pkgSuffix, typeName) {
-			if _, isStruct := deref(a.Type()).Underlying().(*types.Struct); isStruct {
+			if _, isStruct := deref(a.Type()).Underlying().(*types.Struct); isStruct && (a.Comment == "complit" || a.Comment == "new") {
 				out = append(out, a)
 			}
 		}
